@@ -19,7 +19,9 @@ MANIFEST = dict(
               'translated prefix expressions); name forms; read-only rejection + ast translators (format constants, placement/validation sites, '
               'prefix expression of every get_arch_filename site, the split statement of _get_file_parts; round 3: the NUL-terminated string '
               'codec by symbolic execution of _write_nullstring and loop-shape classification of iter_nullstr, the clean-up program of '
-              '__delitem__, new_file executed symbolically on a small heap, the truth table of __exit__, OpenModes.writable, writability guards, '
+              '__delitem__, new_file executed symbolically on a small heap, FileInfo.write/read/verify executed on symbolic values into decision tables '
+              '(24 placement rows, 4 read rows) that are judged in Coq against write_info/read_info, the truth table of __exit__, OpenModes.writable, '
+              'writability guards, _check_arch_index and the name validation executed on probe values, '
               'load_dirfile reset, listing walks) with kernel-checked instance obligations + vm_compute correspondence (histories on real '
               'directories byte-exact incl. with-blocks and load_dirfile() on the same object, independent decode incl. version 2 and damaged '
               'files, archive names really opened, name forms, NUL-terminated streams, nested dicts) + oracle search with a strict independent '
@@ -43,12 +45,15 @@ MANIFEST = dict(
          'byte at a time, or blocks of any size in a loop) reads back every NUL-free string of any length (a single-block reader is refuted for '
          'every block size); the nested dicts _fileinfo[ext][folder][name] satisfy the three finite-map laws for lookup (__getitem__), insertion '
          '(new_file, over the translated get-or-create steps) and deletion (__delitem__, over the translated clean-up program, which is also the '
-         'flat delete of the state machine) for every tree without a well-formedness assumption; wrong variants are refuted by computed witnesses.',
+         'flat delete of the state machine) for every tree without a well-formedness assumption; for dicts without duplicate keys (an invariant of '
+         'new_file/__delitem__) what __iter__ walks is exactly the table of the state machine after the same operations; the placement decision '
+         'functions want_cut/want_dest/want_src against which the symbolic tables of FileInfo.write/read/verify are checked are write_info / '
+         'read_info / verify_info of the model for all inputs; wrong variants are refuted by computed witnesses.',
     note='The model SM/Vpk.v (step/run), the codec Fmt/VpkDir.v/VpkDirV2.v, Fmt/VpkName.v and the string primitives of Fmt/VpkArchName.v are '
          'hand-written and tied to srctools.vpk by differential runs on every run (not by proof): histories on real temp directories compared '
          'byte-exactly, decode of written/damaged/version-2 files, the archive files really opened by the three get_arch_filename sites, name '
          'forms, NUL-terminated streams, new_file/del sequences on the nested dicts. Trusted: Coq kernel + vm_compute (incl. Uint63 for the test '
-         'CRC-32), translate/c13_vpk.py, c13_archname.py, c13_nullstr.py, c13_nested.py, c13_api.py, '
+         'CRC-32), translate/c13_vpk.py, c13_archname.py, c13_nullstr.py, c13_nested.py, c13_api.py, c13_place.py (symbolic executors), '
          'zlib.crc32 (a Section variable in the theorems; its chaining crc32(b, crc32(a)) = crc32(a+b) is assumed), posixpath.normpath (a '
          'parameter of the name theorems), OS append/seek semantics (archives modelled as append-only byte lists; the "ab" open mode and '
          'seek(0, SEEK_END) are a translated site). Premises that are real limits of the code: a write whose CRC-32 equals the stored one is '
